@@ -1,5 +1,6 @@
 SPECIFICATION SwSpec
 CONSTANTS
+  Pre <- NoPre
   FailingGov = FALSE
   MaxHeight = 6
   MaxTx = 18
